@@ -145,8 +145,8 @@ B('C17.eq-on-identity', ['C17'], [(P + 'tls/version.py', "@attr.s(order=False, e
 B('C18.drop-lower', ['C18'], [(P + 'common/field.py', "        if name.lower() != cls.get_canonical_name().lower():\n            raise InvalidType()\n\n    @classmethod\n    def _check_name(cls, name):",
                                "        if name != cls.get_canonical_name():\n            raise InvalidType()\n\n    @classmethod\n    def _check_name(cls, name):")])
 B('C18.no-skip-empty', ['C18'], [(P + 'common/field.py', "            separator_spaces=' \\t',\n            skip_empty=True", "            separator_spaces=' \\t',\n            skip_empty=False")])
-B('C18.terminator-siblings', ['C18'], [(P + 'httpx/header.py', "        parser.parse_string_until_separator('value', ['\\r\\n', ])\n\n        return cls(parser['name'], parser['value']), parser.parsed_length",
-                                        "        parser.parse_string_until_separator('value', ['\\n', ])\n\n        return cls(parser['name'], parser['value']), parser.parsed_length")])
+B('C18.terminator-siblings', ['C18'], [(P + 'httpx/header.py', "        parser.parse_string_until_separator('value', ['\\r\\n', ])\n\n        return cls(parser['name'], parser['value'].rstrip(' \\t')), parser.parsed_length",
+                                        "        parser.parse_string_until_separator('value', ['\\n', ])\n\n        return cls(parser['name'], parser['value'].rstrip(' \\t')), parser.parsed_length")])
 B('C19.zero-width-item', ['C19'], [(P + 'tls/subprotocol.py', "        parser.parse_bytes('certificate', 3)\n\n        return TlsCertificate(bytes(parser['certificate'])), parser.parsed_length",
                                     "        parser.parse_raw('certificate', 0)\n\n        return TlsCertificate(bytes(parser['certificate'])), parser.parsed_length")], props=['C19'], mention=['C19.R4'])
 B('C19.recursive-fallback', ['C19'], [(P + 'common/parse.py', "                    name, item_offset, separator, fallback_class, None, may_end\n                )", "                    name, item_offset, separator, fallback_class, fallback_class, may_end\n                )")])
@@ -253,7 +253,7 @@ N('benign.variant-types-memoised', [(P + 'common/base.py', "    _REGISTERED_VARI
                                    (P + 'common/base.py', "        variant_types = []\n\n        for variant_type_list in list(cls._get_variants().values()) + list(cls._get_registered_variants().values()):\n            variant_types.extend(variant_type_list)",
                                     "        if cls not in cls._STATIC_VARIANT_TYPES:\n            cls._STATIC_VARIANT_TYPES[cls] = [t for ts in cls._get_variants().values() for t in ts]\n        variant_types = list(cls._STATIC_VARIANT_TYPES[cls])\n\n        for variant_type_list in cls._get_registered_variants().values():\n            variant_types.extend(variant_type_list)")])
 N('benign.bounded-window-by-local', [(P + 'common/parse.py', "        unparsed_bytes = self._parsable[self._parsed_length:self._parsed_length + items_size]\n", "        items_end = self._parsed_length + items_size\n        unparsed_bytes = self._parsable[self._parsed_length:items_end]\n")])
-N('benign.explicit-le', [(P + 'tls/version.py', "    def __lt__(self, other):\n        if self.major == other.major:", "    def __le__(self, other):\n        return self < other or self == other\n\n    def __lt__(self, other):\n        if self.major == other.major:")])
+N('benign.explicit-le', [(P + 'tls/version.py', "    def __lt__(self, other):\n        if not isinstance(other, TlsProtocolVersion):", "    def __le__(self, other):\n        if not isinstance(other, TlsProtocolVersion):\n            return NotImplemented\n\n        return self < other or self == other\n\n    def __lt__(self, other):\n        if not isinstance(other, TlsProtocolVersion):")])
 N('benign.nul-string-by-find', [(P + 'common/parse.py', "        try:\n            length = next(iter([\n                i\n                for i, value in enumerate(six.iterbytes(self._parsable[self._parsed_length:]))\n                if value == 0\n            ]))\n        except StopIteration as e:\n            six.raise_from(InvalidValue(self._parsable[self._parsed_length:], str, name), e)\n",
                                  "        length = bytes(self._parsable).find(b'\\x00', self._parsed_length) - self._parsed_length\n        if length < 0:\n            raise InvalidValue(self._parsable[self._parsed_length:], str, name)\n")])
 N('benign.rsa-exponent-branch-order', [(P + 'dnsrec/record.py', "        if exponent_length > 255:\n            key_composer.compose_numeric(0, 1)\n            key_composer.compose_numeric(exponent_length, 2)\n        else:\n            key_composer.compose_numeric(exponent_length, 1)",
